@@ -3,6 +3,7 @@ package harness
 import (
 	"fmt"
 	"runtime"
+	"simrt"
 	"strings"
 	"testing"
 	"testing/synctest"
@@ -58,7 +59,20 @@ func InBubble(t *testing.T, f func()) (leaked bool, crashed string) {
 			crashed = msg + "\n" + string(buf)
 		}
 	}()
-	synctest.Test(t, func(t *testing.T) { f() })
+	synctest.Test(t, func(t *testing.T) {
+		// a panic of the harness itself on the scheduler goroutine must not take the worker down
+		defer func() {
+			if r := recover(); r != nil {
+				buf := make([]byte, 16384)
+				buf = buf[:runtime.Stack(buf, false)]
+				crashed = fmt.Sprint(r) + "\n" + string(buf)
+				if cur := simrtCurrent(); cur != nil {
+					cur.End()
+				}
+			}
+		}()
+		f()
+	})
 	return
 }
 
@@ -86,3 +100,5 @@ func (s *Sim) finish(r *RunResult) {
 	r.Trace = s.Trace
 	s.R.End()
 }
+
+func simrtCurrent() *simrt.Run { return simrt.Current() }
